@@ -124,12 +124,6 @@ end
 
 /-! ## as_dask_dict -/
 
-theorem keyOf_inj (sink a b : Nat) (h : keyOf sink a = keyOf sink b) : a = b := by
-  unfold keyOf at h
-  by_cases ha : a = sink <;> by_cases hb : b = sink <;> simp [ha, hb] at h
-  · rw [ha, hb]
-  · exact h
-
 /-- **single_sink_required**: `as_dask_dict` refuses exactly the workflows whose
     number of output tasks is not one. -/
 theorem single_sink_required (tb : Table) (g : DiGraph) :
@@ -171,33 +165,6 @@ theorem dask_dict_faithful (tb : Table) (g : DiGraph) (d : List Entry) (hnd : g.
         by_cases ht : t = sink <;> simp [ht]
 
 /-! ## Static inputs: dask's graph-literal rules -/
-
-theorem atom_safe (res : Option String) (a : Atom) (h : a.hazard = false) :
-    a.keys = [] ∧ a.dask res = a.literal := by
-  cases a with
-  | s x =>
-    simp only [Atom.hazard] at h
-    have hk : strKey x = none := by
-      cases hx : strKey x with
-      | none => rfl
-      | some k => simp [hx] at h
-    simp [Atom.keys, Atom.dask, Atom.literal, strVal, hk]
-  | ctx => simp [Atom.keys, Atom.dask, Atom.literal]
-  | call g args => simp [Atom.hazard] at h
-
-theorem sarg_safe (res : Option String) (a : SArg) (h : a.hazard = false) :
-    a.keys = [] ∧ a.dask res = a.literal := by
-  cases a with
-  | atom a => exact atom_safe res a h
-  | list xs =>
-    simp only [SArg.hazard, List.any_eq_false] at h
-    have hx : ∀ a ∈ xs, a.keys = [] ∧ a.dask res = a.literal :=
-      fun a ha => atom_safe res a (by simpa using h a ha)
-    constructor
-    · simp only [SArg.keys, List.flatMap_eq_nil_iff]
-      exact fun a ha => (hx a ha).1
-    · simp only [SArg.dask, SArg.literal]
-      rw [List.map_congr_left (fun a ha => (hx a ha).2)]
 
 /-- **static_inputs_literal_partial**: when no static input of any task is a
     dask graph literal (a `str` equal to the key `'results'`, a tuple headed by
@@ -272,36 +239,6 @@ theorem copy_exact (g : DiGraph) (h : WF g) :
     ∀ v, (g.copy.predOf v).Sublist g.copy.nodes :=
   ⟨copy_wf h, rfl, fun _ => copy_edges_mem h, fun v => copy_pred_sublist h.nodupEdges v⟩
 
-theorem executedWorkflow_eq (st : St) (g : DiGraph) :
-    executedWorkflow st g =
-      ((insertContext (relabelPass st g).1 (relabelPass st g).2).1,
-       (insertContext (relabelPass st g).1 (relabelPass st g).2).2.copy) := rfl
-
-/-- The stable partition "tasks that do not take the context first". -/
-def ctxLast (l : List Task) : List Task :=
-  l.filter (fun t => !t.takesCtx) ++ l.filter (fun t => t.takesCtx)
-
-/-- What the dispatcher should see of a task: the context in front of the
-    static inputs iff the function takes it. -/
-def withCtx (t : Task) : Task := if t.takesCtx then addCtx t else t
-
-theorem map_withCtx_ctxLast (l : List Task) :
-    (ctxLast l).map withCtx =
-      l.filter (fun t => !t.takesCtx) ++ (l.filter (fun t => t.takesCtx)).map addCtx := by
-  unfold ctxLast
-  rw [List.map_append]
-  congr 1
-  · conv => rhs; rw [← List.map_id (l.filter (fun t => !t.takesCtx))]
-    apply List.map_congr_left
-    intro t ht
-    have := (List.mem_filter.mp ht).2
-    simp at this
-    simp [withCtx, this]
-  · apply List.map_congr_left
-    intro t ht
-    have := (List.mem_filter.mp ht).2
-    simp [withCtx, this]
-
 /-- **pred_order_after_relabel**: for every well-formed workflow graph (any
     size) and any table of tasks, the workflow that `execute_workflow` hands to
     the dispatcher (copy, relabel-every-task pass, `insert_context`, copy)
@@ -326,7 +263,7 @@ theorem pred_order_after_relabel (st : St) (g : DiGraph) (hwf : WF g)
     rw [hnext1]
     simp at hx
     omega
-  obtain ⟨hwf2, hmap2⟩ := insertContext_spec _ _ hwf1 hfresh1
+  obtain ⟨hwf2, hmap2, _⟩ := insertContext_spec _ _ hwf1 hfresh1
   refine ⟨copy_wf hwf2, ?_, fun v => copy_pred_sublist hwf2.nodupEdges v⟩
   simp only [copy_nodes]
   rw [hmap2, hmap1, map_withCtx_ctxLast]
@@ -340,7 +277,7 @@ theorem pred_order_call_workflow (st : St) (g : DiGraph) (hwf : WF g)
     ∀ v, ((calledWorkflow st g).2.predOf v).Sublist (calledWorkflow st g).2.nodes := by
   have heq : calledWorkflow st g = ((insertContext st g.copy).1, (insertContext st g.copy).2.copy) := rfl
   rw [heq]
-  obtain ⟨hwf2, hmap2⟩ := insertContext_spec st g.copy (copy_wf hwf) hfresh
+  obtain ⟨hwf2, hmap2, _⟩ := insertContext_spec st g.copy (copy_wf hwf) hfresh
   refine ⟨copy_wf hwf2, ?_, fun v => copy_pred_sublist hwf2.nodupEdges v⟩
   simp only [copy_nodes] at hmap2 ⊢
   rw [hmap2, map_withCtx_ctxLast]
@@ -373,15 +310,6 @@ theorem pred_order_context_witness :
   decide
 
 /-! ## Builder operations keep exactly the declared tasks and edges -/
-
-theorem addTask_fold (g : DiGraph) (t : Nat) (ps : List Nat) :
-    addTask g t (some ps) = (g.addNode t).addEdgesFrom (ps.map (fun p => (p, t))) := by
-  unfold addTask addEdgesFrom
-  simp only
-  generalize g.addNode t = g'
-  induction ps generalizing g' with
-  | nil => rfl
-  | cons p ps ih => simp only [List.foldl_cons, List.map_cons]; exact ih _
 
 /-- **builder_ops_exact (add_task)**: afterwards the tasks are the old ones, the
     added one and the named predecessors; the edges are the old ones and one
@@ -518,10 +446,111 @@ theorem insert_refusal_witness :
     (insertWorkflow g other none).2 = some .valueError ∧ (insertWorkflow g other none).1.nodes = [0, 1, 2, 3, 4] := by
   decide
 
+/-- **builder_ops_exact (insert_context)**: the result is well formed; listed in
+    node order its tasks are the tasks that do not take the context (unchanged,
+    original order) followed by the context-taking ones (original order) with the
+    context prepended to their static inputs; the edges are exactly the old
+    edges under the renaming of the replaced tasks, and that renaming fixes
+    every task that does not take the context. -/
+theorem insert_context_exact (st : St) (g : DiGraph) (hwf : WF g) (hfresh : ∀ x ∈ g.nodes, x < st.next) :
+    WF (insertContext st g).2 ∧
+    (insertContext st g).2.nodes.map (insertContext st g).1.tb.get = (ctxLast (g.nodes.map st.tb.get)).map withCtx ∧
+    (∀ e, e ∈ (insertContext st g).2.edges ↔ ∃ e0 ∈ g.edges,
+      e = (renSeq (ctxPairs st g) e0.1, renSeq (ctxPairs st g) e0.2)) ∧
+    ∀ x, (st.tb.get x).takesCtx = false → renSeq (ctxPairs st g) x = x := by
+  obtain ⟨h1, h2, h3⟩ := insertContext_spec st g hwf hfresh
+  refine ⟨h1, by rw [h2, map_withCtx_ctxLast], h3, ?_⟩
+  intro x hx
+  apply renSeq_other
+  unfold ctxPairs
+  rw [zip_range_fst]
+  intro hm
+  have := (List.mem_filter.mp hm).2
+  simp [hx] at this
+
 /-- **builder_ops_exact (`+`)**: the union of tasks and of edges. -/
 theorem plus_exact (g h : DiGraph) (hg : WF g) (hh : WF h) :
     WF (plus g h) ∧ (∀ x, x ∈ (plus g h).nodes ↔ x ∈ g.nodes ∨ x ∈ h.nodes) ∧
     (∀ e, e ∈ (plus g h).edges ↔ e ∈ g.edges ∨ e ∈ h.edges) :=
   ⟨compose_wf, fun _ => compose_nodes_mem hg hh, fun _ => compose_edges_mem hg hh⟩
+
+/-! ## One output task: every task is needed -/
+
+/-- **single_sink_all_upstream**: in an acyclic workflow (a rank function
+    increasing along every edge exists — any size) with exactly one output
+    task, EVERY task has a path to the output task.  dask computes exactly the
+    keys `'results'` depends on, so together with `fires_exactly_once` every
+    task of the workflow is run exactly once. -/
+theorem single_sink_all_upstream (g : DiGraph) (hwf : WF g) (sink : Nat) (hs : g.outputNodes = [sink])
+    (rank : Nat → Nat) (hrank : ∀ e ∈ g.edges, rank e.1 < rank e.2) :
+    ∀ x ∈ g.nodes, Reach g x sink := by
+  obtain ⟨N, hN⟩ := exists_bound g.nodes rank
+  have key : ∀ n x, x ∈ g.nodes → N - rank x ≤ n → Reach g x sink := by
+    intro n
+    induction n with
+    | zero =>
+      intro x hx hle
+      cases hsx : g.succOf x with
+      | nil =>
+        have : x ∈ g.outputNodes := by simp [outputNodes, hx, hsx]
+        rw [hs] at this
+        simp at this
+        subst this; exact Reach.refl _
+      | cons y ys =>
+        have hy : (x, y) ∈ g.edges := mem_succOf.mp (by rw [hsx]; simp)
+        have h1 := hrank _ hy
+        have h2 := hN y (hwf.closed _ hy).2
+        have h3 := hN x hx
+        simp at h1
+        omega
+    | succ n ih =>
+      intro x hx hle
+      cases hsx : g.succOf x with
+      | nil =>
+        have : x ∈ g.outputNodes := by simp [outputNodes, hx, hsx]
+        rw [hs] at this
+        simp at this
+        subst this; exact Reach.refl _
+      | cons y ys =>
+        have hy : (x, y) ∈ g.edges := mem_succOf.mp (by rw [hsx]; simp)
+        have h1 := hrank _ hy
+        have hyn := (hwf.closed _ hy).2
+        have h2 := hN y hyn
+        simp at h1
+        exact Reach.step hy (ih y hyn (by omega))
+  intro x hx
+  exact key (N - rank x) x hx (Nat.le_refl _)
+
+/-! ## Non-vacuity: the hypotheses of the theorems above are satisfiable on non-trivial inputs -/
+
+/-- A diamond 0 → {1, 2} → 3: two different admissible schedules, same values. -/
+def diamond : TaskGraph Nat Nat where
+  deps k := if k = 3 then [1, 2] else if k = 1 ∨ k = 2 then [0] else []
+  fn k vs := vs.foldl (· + ·) (k + 1)
+
+example : (runSeq diamond Env.empty [0, 1, 2, 3]).isSome = true ∧ (runSeq diamond Env.empty [0, 2, 1, 3]).isSome = true ∧
+    (runSeq diamond Env.empty [0, 3]).isSome = false ∧ (runSeq diamond Env.empty [0, 1, 1]).isSome = false := by
+  decide
+
+example : ((runSeq diamond Env.empty [0, 1, 2, 3]).bind (· 3)) = some 11 ∧
+    ((runSeq diamond Env.empty [0, 2, 1, 3]).bind (· 3)) = some 11 ∧ den diamond 3 3 = some 11 := by
+  decide
+
+/-- `static_inputs_literal_partial` applies to a dict with harmless static inputs. -/
+example : ∀ e ∈ ([⟨.task 0, ⟨0, true, [.atom .ctx, .atom (.s "s0"), .list [.s "p", .s "q"]]⟩, []⟩,
+    ⟨.results, ⟨1, false, [.atom (.s "k")]⟩, [.task 0]⟩] : List Entry), ∀ a ∈ e.task.static, a.hazard = false := by
+  decide
+
+/-- `pred_order_entered_partial` / `pred_order_after_relabel` apply to a well-formed
+    workflow whose context-taking task entered last; `single_sink_all_upstream` to the same graph. -/
+def okTable : Table := [(0, ⟨0, false, []⟩), (1, ⟨1, false, []⟩), (2, ⟨2, true, []⟩)]
+def okGraph : DiGraph := ⟨[1, 0, 2], [(0, 2), (1, 2)]⟩
+
+example : WF okGraph ∧ (∀ x ∈ okGraph.nodes, x < 1000) ∧
+    ctxLast (okGraph.nodes.map okTable.get) = okGraph.nodes.map okTable.get ∧
+    okGraph.outputNodes = [2] ∧ (∀ e ∈ okGraph.edges, id e.1 < id e.2) := by
+  decide
+
+example : WF ctxWitnessGraph ∧ ∀ x ∈ ctxWitnessGraph.nodes, x < 1000 := by decide
 
 end Pharmpy.C17
